@@ -7,7 +7,7 @@ ASSUME Cardinality(MsgTypes) = 42 /\ Cardinality(FailCodes) = 25
 ASSUME WriteOk(MaxMsgBody) /\ ~WriteOk(MaxMsgBody + 1) /\ BufAfter(5, MaxMsgBody) = 5 + MaxMsg
 \* value-boundary part of the plan: every message type and every failure code (both failure codecs) gets every
 \* class of every value operator, and nothing else
-ASSUME Len(Ops) = 18 /\ Len(Poss) = 25
+ASSUME Len(Ops) = 21 /\ Len(Poss) = 25 + 1 + 60 + 18
 ASSUME \A k \in {"msg", "fail", "pkt"} : \A t \in TypesOf(k) : \A op \in ValOps :
           {c.pos : c \in {c \in PlanCells : c.kind = k /\ c.t = t /\ c.op = op}} = PosOf(op)
 ASSUME Cardinality({c \in PlanCells : c.op \in ValOps}) = (42 + 25 + 25) * (8 + 4 + 6)
@@ -33,4 +33,33 @@ ASSUME LET o(f, c, w) == [op |-> "val-int", fld |-> f, pos |-> c, w |-> w, gotyp
 ASSUME LET o(g, c) == [op |-> "val-bytes", fld |-> "x", pos |-> c, w |-> 32, gotype |-> g, t |-> 257] IN
          /\ InDomain(o("NodeAlias", "bz")) /\ ~InDomain(o("NodeAlias", "butf")) /\ InDomain(o("ChannelID", "butf"))
          /\ ~InDomain(o("Musig2Nonce", "b00"))
+\* record-level part of the plan: every message type gets every (type class x length class) of rec-ins, the four
+\* rec-drop selections and every (record selection x resize) of rec-len; of the failure messages only the one
+\* with an extension, as a bare failure message
+ASSUME \A t \in MsgTypes : \A op \in RecOps :
+          {c.pos : c \in {c \in PlanCells : c.kind = "msg" /\ c.t = t /\ c.op = op}} = PosOf(op)
+ASSUME \A op \in RecOps : {c.pos : c \in {c \in PlanCells : c.kind = "fail" /\ c.t = 16399 /\ c.op = op}} = PosOf(op)
+ASSUME Cardinality({c \in PlanCells : c.op \in RecOps}) = (42 + 1) * (10 * 6 + 4 + 3 * 6)
+ASSUME \A c \in PlanCells : c.op \in RecOps => (c.kind = "msg" \/ (c.kind = "fail" /\ c.t \in FailExtCodes))
+ASSUME FailExtCodes \subseteq FailCodes /\ NoExtTypes \subseteq MsgTypes
+ASSUME \A c \in PlanCells : InPlan(c)
+ASSUME Cardinality(Range(Poss)) = Len(Poss)
+\* the type classes are in canonical (numeric) order, cover every BigSize width of a type, both parities below the
+\* custom range, and both sides of the custom-range and of the signed-range boundaries
+ASSUME \A i \in 1..(Len(RecTypeClasses) - 1) : TcWidth(RecTypeClasses[i]) <= TcWidth(RecTypeClasses[i + 1])
+                                               /\ (TcCustom(RecTypeClasses[i]) => TcCustom(RecTypeClasses[i + 1]))
+ASSUME {TcWidth(c) : c \in Range(RecTypeClasses)} = {1, 3, 5, 9}
+ASSUME \A w \in {1, 3} : \E c, d \in Range(RecTypeClasses) : TcWidth(c) = w /\ TcWidth(d) = w /\ TcOdd(c) /\ ~TcOdd(d)
+                                                              /\ ~TcCustom(c) /\ ~TcCustom(d)
+ASSUME \E c, d \in Range(RecTypeClasses) : TcSigned(c) /\ ~TcCustom(c) /\ TcSigned(d) /\ TcCustom(d)
+ASSUME \A c \in Range(RecTypeClasses) : TcRank(c) \in 1..Len(RecTypeClasses) /\ RecTypeClasses[TcRank(c)] = c
+\* the length classes of a record value sit on both sides of the 1|3-byte BigSize length boundary and include EMPTY
+ASSUME {LenOf(LenClasses[i]) : i \in 1..Len(LenClasses)} = {0, 1, 252, 253, 255, 256}
+ASSUME {DeltaNeed(DeltaClasses[i]) : i \in 1..Len(DeltaClasses)} = {0, 1, 8}
+\* the laws: an accepted rec-ins case that lost its record, or came back different, is a deviation; an odd one
+\* that was refused is one; an even one that was refused is not
+ASSUME LET o(tc, d1, e1, rk, sm) == [op |-> "rec-ins", tcls |-> tc, d1 |-> d1, e1 |-> e1, rkept |-> rk, same |-> sm] IN
+         /\ RecAccept(o("o9d", 1, 1, 1, 1)) /\ ~RecAccept(o("o9d", 0, 0, 0, 0)) /\ RecAccept(o("efc", 0, 0, 0, 0))
+         /\ RecPreserved(o("ofb", 1, 1, 1, 1)) /\ ~RecPreserved(o("ofb", 1, 1, 0, 0)) /\ ~RecPreserved(o("ofb", 1, 1, 1, 0))
+         /\ ~RecPreserved(o("efc", 1, 0, 0, 0)) /\ RecPreserved(o("efc", 0, 0, 0, 0))
 ====
